@@ -421,7 +421,10 @@ pub fn gen_schedule(rng: &mut Rng, world: &World) -> (Schedule, usize, usize) {
 /// A seeded subset (possibly empty, possibly everything) of the category's default patterns in a
 /// seeded order.
 pub fn gen_pats(rng: &mut Rng, cat: Cat) -> Vec<Pat> {
-    let all = defaults(cat);
+    let all: Vec<Pat> = defaults(cat)
+        .into_iter()
+        .filter(|p| crate::report::has_row(*p))
+        .collect();
     let mut v = match rng.below(4) {
         0 => all.clone(),
         1 => rng.subset(&all, 1, 3),
